@@ -22,6 +22,30 @@ type settingSet struct {
 	Tags []string `json:"tags"`
 	// listener fields that the explicit settings determine on both front ends
 	HTTPExplicit, GRPCExplicit, ProfileExplicit bool `json:"-"`
+	// ProfileEnabledOnly: the explicit settings decide whether profiling is on,
+	// but the host of its address hangs on the omitted profile_host (whose
+	// documented defaults differ): only on/off is compared.
+	ProfileEnabledOnly bool `json:"-"`
+	// Form (forms slice): the combination of spellings under test, part of the
+	// finding key; FormPath is the effective field it governs and FormSettings
+	// the settings that spell it.
+	Form         string   `json:"form,omitempty"`
+	FormPath     string   `json:"-"`
+	FormSettings []string `json:"-"`
+	// BothAliases: the environment rendering sets EVERY documented variable
+	// name of a setting (same value), not just one of them.
+	BothAliases bool `json:"env_aliases_all,omitempty"`
+}
+
+func (s *settingSet) formSettingAmong(names []string) bool {
+	for _, n := range names {
+		for _, f := range s.FormSettings {
+			if n == f {
+				return true
+			}
+		}
+	}
+	return false
 }
 
 func (s *settingSet) get(name string) (string, bool) {
@@ -147,6 +171,12 @@ func envName(rng *rand.Rand, st *setting, alias bool) string {
 func renderEnv(rng *rand.Rand, s *settingSet) rendering {
 	env := map[string]string{}
 	for _, e := range s.KVs {
+		if s.BothAliases {
+			for _, n := range byFlag[e.Name].Env {
+				env[n] = e.Val
+			}
+			continue
+		}
 		env[envName(rng, byFlag[e.Name], true)] = e.Val
 	}
 	return rendering{Env: env}
